@@ -136,3 +136,113 @@ theorem mem_keys_erase (k x : κ) (l : AList κ α) (hn : (keys l).Nodup) :
   by_cases h : x = k <;> simp [h]
 
 end Gin.AList
+
+namespace Gin.AList
+variable {κ α : Type} [DecidableEq κ]
+
+theorem lookup_update (d e : AList κ α) (x : κ) :
+    lookup x (update d e) = (lookup x e.reverse).orElse (fun _ => lookup x d) := by
+  unfold update
+  induction e generalizing d with
+  | nil => simp [lookup]
+  | cons y rest ih =>
+    obtain ⟨k, v⟩ := y
+    simp only [List.foldl_cons, ih, lookup_set, List.reverse_cons]
+    -- lookup in `rest.reverse ++ [(k, v)]`
+    have happ : ∀ (l : AList κ α), lookup x (l ++ [(k, v)]) =
+        (lookup x l).orElse (fun _ => if k = x then some v else none) := by
+      intro l
+      induction l with
+      | nil => simp [lookup]
+      | cons z l ihl =>
+        obtain ⟨k', v'⟩ := z
+        simp only [List.cons_append, lookup]
+        by_cases h : k' = x
+        · simp [h]
+        · simp [h, ihl]
+    rw [happ]
+    cases lookup x rest.reverse with
+    | some w => simp
+    | none =>
+      by_cases h : x = k
+      · subst h; simp
+      · have : ¬ k = x := fun e => h e.symm
+        simp [h, this]
+
+theorem nodup_keys_update (d e : AList κ α) (h : (keys d).Nodup) : (keys (update d e)).Nodup := by
+  unfold update
+  induction e generalizing d with
+  | nil => simpa using h
+  | cons y rest ih => exact ih _ (nodup_keys_set y.1 y.2 d h)
+
+theorem mem_keys_update (d e : AList κ α) (x : κ) :
+    x ∈ keys (update d e) ↔ x ∈ keys d ∨ x ∈ keys e := by
+  unfold update
+  induction e generalizing d with
+  | nil => simp [keys]
+  | cons y rest ih =>
+    rw [List.foldl_cons, ih, mem_keys_set]
+    have : x ∈ keys (y :: rest) ↔ x = y.1 ∨ x ∈ keys rest := by simp [keys]
+    rw [this]
+    constructor
+    · rintro ((h | h) | h)
+      · exact Or.inr (Or.inl h)
+      · exact Or.inl h
+      · exact Or.inr (Or.inr h)
+    · rintro (h | h | h)
+      · exact Or.inl (Or.inr h)
+      · exact Or.inl (Or.inl h)
+      · exact Or.inr h
+
+theorem nodup_keys_update_nil (e : AList κ α) : (keys (update [] e)).Nodup :=
+  nodup_keys_update [] e (by simp [keys])
+
+end Gin.AList
+
+namespace Gin.AList
+variable {κ α : Type} [DecidableEq κ]
+
+theorem lookup_append (l₁ l₂ : AList κ α) (x : κ) :
+    lookup x (l₁ ++ l₂) = (lookup x l₁).orElse (fun _ => lookup x l₂) := by
+  induction l₁ with
+  | nil => simp [lookup]
+  | cons z l ih =>
+    obtain ⟨k', v'⟩ := z
+    simp only [List.cons_append, lookup]
+    by_cases h : k' = x
+    · simp [h]
+    · simp [h, ih]
+
+theorem lookup_reverse (l : AList κ α) (h : (keys l).Nodup) (x : κ) :
+    lookup x l.reverse = lookup x l := by
+  induction l with
+  | nil => rfl
+  | cons y rest ih =>
+    obtain ⟨k, v⟩ := y
+    simp only [keys, List.map_cons, List.nodup_cons] at h
+    rw [List.reverse_cons, lookup_append, ih h.2]
+    simp only [lookup]
+    by_cases hk : k = x
+    · subst hk
+      rw [lookup_none_of_not_mem k rest h.1]; simp
+    · simp only [hk, if_false]
+      cases lookup x rest <;> simp
+
+theorem lookup_update' (d e : AList κ α) (h : (keys e).Nodup) (x : κ) :
+    lookup x (update d e) = (lookup x e).orElse (fun _ => lookup x d) := by
+  rw [lookup_update, lookup_reverse e h]
+
+theorem lookup_map_val {β : Type} (f : α → β) (l : AList κ α) (x : κ) :
+    lookup x (l.map (fun kv => (kv.1, f kv.2))) = (lookup x l).map f := by
+  induction l with
+  | nil => rfl
+  | cons y rest ih =>
+    obtain ⟨k, v⟩ := y
+    simp only [List.map_cons, lookup]
+    by_cases h : k = x <;> simp [h, ih]
+
+theorem keys_map_val {β : Type} (f : α → β) (l : AList κ α) :
+    keys (l.map (fun kv => (kv.1, f kv.2))) = keys l := by
+  simp [keys, List.map_map, Function.comp_def]
+
+end Gin.AList
